@@ -4,6 +4,7 @@ CONSTANTS
   TTL_R = 5
   MaxClock = 5
   MaxIds = 4
+  MaxTokenOnly = 1
   MaxSteps = 0
   Secrets = {0, 1}
   Findings = {}
